@@ -515,3 +515,80 @@ Proof.
   destruct (parse_socks5_addr r) as [[[[t h] p] used]|] eqn:Ea; [|discriminate].
   apply parse_socks5_addr_bounded in Ea. inversion H; subst. cbn [length] in *. lia.
 Qed.
+
+(* ------------------------------------------------------------------ the owner is defined at creation
+   The step function treats "dispatch + the session goroutine's processing" as one step. In the Go code the
+   two run on different goroutines: between the event loop storing a new session in sessionMap and the
+   session goroutine processing its open request, further datagrams naming that id can be dispatched.
+   The ownership decision of the dispatch ([lookup], Go: segmentUserOwnsSession) is immune to that window
+   because the owner it uses is written by the event loop BEFORE the session becomes visible (the policy
+   stored by newSessionWithServerUserPolicy) and is never changed by the session goroutine. A variant that
+   reads only s.userName (written by the session goroutine) has the window: see [username_only_has_window]. *)
+
+(* the session exactly as onOpenSessionRequest stores it in sessionMap, before anything was processed *)
+Definition created_session (sid pol : N) : session := mkSession sid false false false None (Some pol) 0.
+
+Lemma owner_of_policy : forall s o, s_policy s = Some o -> o <> 0 -> session_owner s = o.
+Proof.
+  intros s o Hp Ho. unfold session_owner. rewrite Hp.
+  destruct (o =? 0) eqn:E; [apply N.eqb_eq in E; congruence|]. rewrite E. reflexivity.
+Qed.
+
+(* a session that has not processed a single segment already denies every other user *)
+Lemma owner_defined_at_creation : forall sid pol u rest g,
+  pol <> 0 -> u <> pol -> g_sid g = sid -> g_block g = Some u ->
+  session_owner (created_session sid pol) = pol /\
+  lookup true (mkEndpoint Server UDP 0 (created_session sid pol :: rest)) g = None.
+Proof.
+  intros sid pol u rest g Hp Hu Hs Hb.
+  assert (Ho : session_owner (created_session sid pol) = pol) by (apply owner_of_policy; auto).
+  split; [exact Ho|]. unfold lookup. cbn [e_sessions find_session]. rewrite Hs.
+  cbn [created_session s_id]. rewrite N.eqb_refl. cbn [is_tcp is_client e_tr e_role andb negb]. rewrite Hb, Ho.
+  destruct (pol =? 0) eqn:E1; [apply N.eqb_eq in E1; congruence|].
+  destruct (pol =? u) eqn:E2; [apply N.eqb_eq in E2; congruence|]. reflexivity.
+Qed.
+
+(* every session in the table of a well-formed server has a defined owner, and it is the creation-time policy *)
+Lemma owner_defined_in_table : forall e s, wf e -> is_client e = false -> In s (e_sessions e) ->
+  session_owner s <> 0 /\ s_policy s = Some (session_owner s).
+Proof.
+  intros e s [_ [HF _]] Hc Hin. rewrite Forall_forall in HF. specialize (HF s Hin). rewrite Hc in HF.
+  destruct (server_owner _ _ _ HF) as [o [Ho [Hown [Hp _]]]]. rewrite Hown. auto.
+Qed.
+
+(* processing a segment never changes the policy, hence never the owner the dispatch uses *)
+Lemma input_identity_policy : forall s g s' o, s_policy s = Some o -> input_identity s g = inr s' -> s_policy s' = Some o.
+Proof.
+  intros s g s' o Hp H. unfold input_identity in H. cbn [s_policy set_block] in H. rewrite Hp in H.
+  repeat match type of H with
+  | context [if ?b then _ else _] => destruct b
+  | context [match ?x with Some _ => _ | None => _ end] => destruct x
+  end; try discriminate; inversion H; subst; simpl; assumption.
+Qed.
+
+Lemma input_policy : forall v tr s g s' o, s_policy s = Some o -> input v tr s g = InOk s' -> s_policy s' = Some o.
+Proof.
+  intros v tr s g s' o Hp H. unfold input in H.
+  destruct (negb (input_direction_ok (s_client s) (g_proto g))); [discriminate|].
+  destruct (input_identity s g) as [x|s1] eqn:Hid; [discriminate|].
+  pose proof (input_identity_policy s g s1 o Hp Hid) as Hp1.
+  unfold input_data, input_ack, input_close in H.
+  repeat match type of H with
+  | context [if ?b then _ else _] => destruct b
+  | context [match ?x with Some _ => _ | None => _ end] => destruct x
+  | context [match ?x with TCP => _ | UDP => _ end] => destruct x
+  | context [match ?x with KSession => _ | _ => _ end] => destruct x
+  end; try discriminate; inversion H; subst; simpl; assumption.
+Qed.
+
+Lemma owner_stable : forall v tr s g s' o, s_policy s = Some o -> o <> 0 -> input v tr s g = InOk s' ->
+  session_owner s' = session_owner s.
+Proof.
+  intros v tr s g s' o Hp Ho H. rewrite (owner_of_policy s o Hp Ho).
+  apply owner_of_policy; [eapply input_policy; eauto | exact Ho].
+Qed.
+
+(* the variant "owner = s.userName only": on the freshly created session it is undefined, every user passes *)
+Definition owner_username_only (s : session) : N := s_user s.
+Lemma username_only_has_window : forall sid pol, owner_username_only (created_session sid pol) = 0.
+Proof. reflexivity. Qed.
